@@ -64,6 +64,9 @@ def init_worker():
 
 
 def cases(tier, seed):
+    # small seed-independent families first: fragment names defined on several levels, `!` on two consecutive levels
+    yield from gr.layered_reuse_cases(tier)
+    yield from gr.layered_shared_cases(tier)
     yield from gr.layered_cases(tier, seed)
 
 
@@ -125,8 +128,13 @@ def check_case(case):
                     if edges != prev['edges']:
                         fail('chain-edges', 'step %d: coarse edges differ from the previous fine graph' % step)
             base = gr.intended_graph(case['base']) if (step == 0 and case.get('base')) else coarse
-            for clause, detail in rs.check_membership(coarse, fine) + rs.check_copies(coarse, fine, templates[step], all_atom) \
-                    + rs.check_bonds(base, fine, templates[step], case['legacy'], all_atom):
+            if 'shared' in case['tags']:
+                # with shared atoms only the membership clause is demanded here (copies / bonds of `!` inputs: C02's shared family, C10)
+                guarantees = rs.check_membership(coarse, fine, shared_atoms=True)
+            else:
+                guarantees = rs.check_membership(coarse, fine) + rs.check_copies(coarse, fine, templates[step], all_atom) \
+                    + rs.check_bonds(base, fine, templates[step], case['legacy'], all_atom)
+            for clause, detail in guarantees:
                 fail('step-guarantee-' + clause, 'step %d: %s' % (step, detail))
             if step < nlev - 1 and any(t.number_of_nodes() >= 2 for t in templates[step].values()):
                 multi_node_fragment = True
